@@ -63,9 +63,13 @@ def _block(typ, body):
     return struct.pack("<II", typ, n) + body + struct.pack("<I", n)
 
 
-def pcapng(items):
-    """items: ('pkt', ts_us, frame) | ('dsb', key-log bytes); little endian, microseconds."""
+def pcapng(items, pre_idb=()):
+    """items: ('pkt', ts_us, frame) | ('dsb', key-log bytes); little endian, microseconds.
+    pre_idb: key-log byte strings written as decryption-secrets blocks BETWEEN the section header and the interface
+    description (where `editcap --inject-secrets` puts them)."""
     out = _block(0x0A0D0D0A, struct.pack("<IHHq", 0x1A2B3C4D, 1, 0, -1))
+    for d in pre_idb:
+        out += _block(0xA, struct.pack("<II", 0x544c534b, len(d)) + d)
     out += _block(1, struct.pack("<HHI", 1, 0, 65535))
     for it in items:
         if it[0] == "dsb":
